@@ -37,7 +37,10 @@ def subpixel_pcc(
     product = f0 * f1.conj()
     power = _abs2(backend.ifftn(product))
     _max_shifts = np.asarray(max_shifts, dtype=np.float32)
-    _int_shifts = _max_shifts.astype(np.int32)
+    # The refinement below searches -0.75..+0.70 pixel around the integer peak and is
+    # itself restricted to +-max_shifts, so the integer peak may lie up to 0.7 pixel
+    # outside the range. Otherwise shifts in (int(m) + 0.7, m] could never be found.
+    _int_shifts = np.floor(_max_shifts + 0.699).astype(np.int32)
     power = crop_by_max_shifts(power, _int_shifts, _int_shifts, backend)
 
     maxima = backend.unravel_index(backend.argmax(power), power.shape)
@@ -69,8 +72,8 @@ def subpixel_pcc(
 
         # The upsampled region is not FFT-ordered: index ``dftshift`` is the current
         # shift estimate. Restrict it to the samples inside +-max_shifts.
-        _lshift = ((shifts + _max_shifts) * upsample_factor).astype(np.int32)
-        _rshift = ((_max_shifts - shifts) * upsample_factor).astype(np.int32)
+        _lshift = np.floor((shifts + _max_shifts) * upsample_factor + 1e-3).astype(np.int32)
+        _rshift = np.floor((_max_shifts - shifts) * upsample_factor + 1e-3).astype(np.int32)
         _start = np.maximum(int(dftshift) - _lshift, 0)
         _stop = np.minimum(int(dftshift) + _rshift + 1, upsampled_region_size)
         power = power[tuple(slice(int(s0), int(s1)) for s0, s1 in zip(_start, _stop))]
